@@ -284,6 +284,10 @@ def run(ctx):
     ctx.extra['behaviours_exhaustive'] = len(set(behs))
     ctx.extra['behaviours_simulated'] = len(sims)
     ctx.extra['random_histories'] = len(rtraces)
+    # whole-session walks of spec/Session.tla (protection scopes x signatures x encryption x keyring), this property's clause family
+    from .. import session as _session
+    for _b, _step, _clause, _detail in _session.generate(ctx, 'C19.session')[0]:
+        ctx.violation(_clause, 'session: %s at %s' % (_detail, _b[_step - 1][0]), {'behaviour': [list(x) for x in _b[:_step]]})
     return ctx.finish(level='model_checking',
                       rule='G: every behaviour of Keyring.tla (8 key objects) to depth %d plus TLC-simulated walks of depth 25, replayed on a real '
                            'PGPKeyring; V: random histories over 12 keys x 2 objects each, five load forms; each history is distinct; '
